@@ -404,7 +404,7 @@ func TestWire(t *testing.T) {
 		if rapid.Bool().Draw(t, "hasm") {
 			flat["m"] = rapid.SampledFrom([]string{"alpha", "beta", "delta"}).Draw(t, "m")
 		}
-		text := rapid.SampledFrom([]string{"${n}", "${n:alpha}", "${m:beta}", "${zz:alpha}", "${em:beta}", "al${sfx:pha}", "${n}${zz}"}).Draw(t, "text")
+		text := rapid.SampledFrom([]string{"${n}", "${n:alpha}", "${m:beta}", "${zz:alpha}", "${em:beta}", "al${sfx:pha}", "${n}${zz}", "${zz:}", "${em:}", "${zz}"}).Draw(t, "text")
 		r := &ref{cfg: flat}
 		name, rerr := r.resolve(text, map[string]bool{})
 		if rerr != nil {
@@ -435,7 +435,15 @@ func TestWire(t *testing.T) {
 		} else if name != "" && out.Err == nil {
 			t.Fatalf("C16: wire resolves to %q which names no component, yet start-up succeeded\n%s", name, desc)
 		}
-		kit.Rec.Case(desc, true, "wire-carrier")
+		lab := "wire-carrier"
+		if name == "" {
+			// everything resolved to nothing: the tag is processed as if it had been written wire:"" - by type
+			if out.Err != nil || (got != a && got != b) {
+				t.Fatalf("C16: the wire tag resolves to the empty text, i.e. wire:\"\" (by type: alpha and beta fit), but the field holds %v (err %v)\n%s", got, out.Err, desc)
+			}
+			lab = "wire-carrier-resolves-to-empty"
+		}
+		kit.Rec.Case(desc, true, lab)
 	})
 }
 
